@@ -26,7 +26,7 @@ def run(kind, name, patch, ids, expect):
     try:
         env = dict(ENV, PSA_REPO=tmp)
         for pid in ids:
-            rc, out = sh("/verif/bin/psa check %s --no-evidence" % pid, cwd="/verif", env=env)
+            rc, out = sh(os.environ.get("PSA_BIN", "/verif/bin/psa") + " check %s --no-evidence" % pid, cwd="/verif", env=env)
             rules = sorted(set(re.findall(r"^\S*: ([A-Z0-9@-]+) \[", out, re.M)))
             if kind == "refactor" and rc != 0:
                 lines = [l[:260] for l in out.splitlines() if re.match(r"^\S*: [A-Z0-9@-]+ \[", l)]
